@@ -2,5 +2,5 @@ from props._stdfrag import run_fragment
 
 
 def run():
-    return run_fragment("C25", "model_checking", ["only the format_int half (format_radix digits are the positional notation of |x|, sign pushed iff x < 0); parse_int is i64::from_str_radix (std) and is not encoded",
+    return run_fragment("C25", "model_checking", ["format_int/parse_int pair: (a) format_radix digits are the positional notation of |x|, sign pushed iff x < 0 (bounded digits); (b) wrapper lemmas, no bound: format_int hands value and base unchanged to format_radix and fails only on non-integer arguments or a base outside 2..=36; parse_int hands the string (from index 0, or after the documented 0b/0o/0x prefix when no base is given) and the base to i64::from_str_radix and returns its integer; i64::from_str_radix itself is std and is trusted to invert positional notation",
                                                   "all other pairs of C25 (flatten/unflatten, entries, ip_*, timestamps) are NOT covered"])
